@@ -3,6 +3,7 @@ import RPVerif.Lemmas.Exec
 import RPVerif.Lemmas.Sched
 import RPVerif.Lemmas.Pool
 import RPVerif.Props.C07
+import RPVerif.Lemmas.SchedCancel
 
 /-!
 # C08 — Cancel stops the named tasks and nothing else
@@ -302,5 +303,29 @@ open RPVerif.Sched in
 example : (parkTasks 0 { nodes := [], cancel := [7] } [{ uid := 7, ranks := 1, cpr := 1, gpr := 0, lfs := 0, mem := 0 },
       { uid := 8, ranks := 1, cpr := 1, gpr := 0, lfs := 0, mem := 0 }] []).1.waitpool.map (fun e => (e.1, e.2.map (·.uid)))
             = [(0, [8])] := by decide
+
+open RPVerif.Sched in
+/-- **bystanders over whole histories of the scheduling loop**: a task that no cancel message and no cancel
+    mark of the history names (and that was not marked before) is never reported CANCELED by the scheduler,
+    whatever else is canceled around it, whenever, and however often -/
+theorem C08_bystander_never_canceled (c : Cfg) (s0 : SchedSt) (res : Bool) (its : List Iter) (u : Nat)
+    (h0 : u ∉ s0.cancel) (hn : unnamed u its) :
+    u ∉ canceledUids (runLoop c s0 res its []).2.2.flatten :=
+  (runLoop_canceled c u its s0 res [] h0 (by simp) hn).1
+
+open RPVerif.Sched in
+/-- ... and it is not dropped: handed in once, it is either still waiting (once) or was reported once - as
+    started or failed, not as canceled -/
+theorem C08_bystander_keeps_its_place (c : Cfg) (s0 : SchedSt) (hw : s0.waitpool = []) (res : Bool) (its : List Iter) (u : Nat)
+    (h0 : u ∉ s0.cancel) (hn : unnamed u its) (h1 : handed its u = 1) :
+    u ∉ canceledUids (runLoop c s0 res its []).2.2.flatten
+    ∧ ((count u (evUids (runLoop c s0 res its []).2.2.flatten) = 1 ∧ waiting (runLoop c s0 res its []).1.waitpool u = 0)
+       ∨ (count u (evUids (runLoop c s0 res its []).2.2.flatten) = 0 ∧ waiting (runLoop c s0 res its []).1.waitpool u = 1)) := by
+  refine ⟨C08_bystander_never_canceled c s0 res its u h0 hn, ?_⟩
+  have hk : KeysOK s0.waitpool := by rw [hw]; exact List.nodup_nil
+  have := (runLoop_conserve c u its s0 res [] hk (by rw [hw]; simp; omega)).2
+  rw [hw] at this
+  simp at this
+  omega
 
 end RPVerif.C08
